@@ -150,7 +150,45 @@ inline CustomTabulated make_custom_gl(int levels) {
     return CustomTabulated(std::move(nn), std::move(prec), std::move(nodes), std::move(weights), std::string("verif custom gauss-legendre"));
 }
 
+// Size estimate of a make/update request with a curved depth type and negative log-weights, computed from the documented selection formula BEFORE the library is asked:
+// index i is selected iff sum_j xi_j E_j(i_j) + eta_j log(1 + E_j(i_j)) <= depth * min_j xi_j (E = 1 + exactness of the previous level, the level itself for level types),
+// and the set is completed to a lower set; with g_j = suffix minimum of the 1-D terms the completed set is exactly {i : sum_j g_j(i_j) <= bound}. With eta < 0 the step from one
+// depth to the next can be from hundreds to billions of points, so "build it and count" (the way every other size cap of the generators works) cannot be used here.
+// Returns true when the request is certainly larger than max_points (or reaches 1-D levels the library cannot index).
+inline bool curved_request_exceeds(const GridSpec &sp, int depth, double max_points) {
+    if (!(sp.family == F_GLOBAL || sp.family == F_SEQ || sp.family == F_FOURIER) || !is_curved(sp.type) || (int)sp.aw.size() != 2 * sp.dims) return false;
+    bool neg = false; for (int j = 0; j < sp.dims; j++) if (sp.aw[(size_t)(sp.dims + j)] < 0) neg = true;
+    if (!neg) return false;
+    const int d = sp.dims, IMAX = 26; int xmin = sp.aw[0]; for (int j = 0; j < d; j++) xmin = std::min(xmin, sp.aw[(size_t)j]);
+    if (xmin < 1) return false;   // (not a sound request; the library's argument checks deal with it)
+    const bool level_type = sp.type == type_curved, qp = sp.type == type_qpcurved;
+    auto npts = [&](int l) -> double { if (sp.family == F_SEQ) return l + 1.0; if (sp.family == F_FOURIER) return std::pow(3.0, l); if (sp.custom) return l + 1.0; return (double)OneDimensionalMeta::getNumPoints(l, sp.rule); };
+    auto exact = [&](int l) -> double { if (level_type) return l; if (sp.family == F_FOURIER) return (std::pow(3.0, l) - 1.0) / 2.0; if (sp.family == F_SEQ) return l;
+        if (sp.custom) return 2.0 * l + 1.0; return (double)(qp ? OneDimensionalMeta::getQExact(l, sp.rule) : OneDimensionalMeta::getIExact(l, sp.rule)); };
+    const bool nested = sp.nested();
+    std::vector<std::vector<double>> gmin((size_t)d), pts((size_t)d); std::vector<int> top((size_t)d);
+    for (int j = 0; j < d; j++) { int lim = (!sp.limits.empty() && sp.limits[(size_t)j] >= 0) ? std::min(sp.limits[(size_t)j], IMAX) : IMAX; top[(size_t)j] = lim;
+        std::vector<double> c((size_t)lim + 1);
+        for (int i = 0; i <= lim; i++) { double e = i == 0 ? 0.0 : 1.0 + exact(i - 1); c[(size_t)i] = sp.aw[(size_t)j] * e + sp.aw[(size_t)(d + j)] * std::log1p(e); }
+        for (int i = lim - 1; i >= 0; i--) c[(size_t)i] = std::min(c[(size_t)i], c[(size_t)i + 1]);
+        gmin[(size_t)j] = c; pts[(size_t)j].resize((size_t)lim + 1);
+        for (int i = 0; i <= lim; i++) pts[(size_t)j][(size_t)i] = nested ? (i == 0 ? npts(0) : npts(i) - npts(i - 1)) : npts(i); }
+    const double bound = (double)depth * xmin + 1.0; double rest0 = 0; for (int j = 0; j < d; j++) rest0 += gmin[(size_t)j][0];
+    // a direction without a limit that can reach IMAX is beyond the index range
+    for (int j = 0; j < d; j++) if ((sp.limits.empty() || sp.limits[(size_t)j] < 0) && gmin[(size_t)j][(size_t)IMAX] + (rest0 - gmin[(size_t)j][0]) <= bound) return true;
+    double total = 0; long visited = 0; bool over = false;
+    std::function<void(int, double, double)> rec = [&](int j, double w, double prod) {
+        if (over) return;
+        if (j == d) { total += prod; if (total > max_points) over = true; return; }
+        double rest = 0; for (int k = j + 1; k < d; k++) rest += gmin[(size_t)k][0];
+        for (int i = 0; i <= top[(size_t)j] && !over; i++) { if (w + gmin[(size_t)j][(size_t)i] + rest > bound) break; if (++visited > 400000) { over = true; return; } rec(j + 1, w + gmin[(size_t)j][(size_t)i], prod * pts[(size_t)j][(size_t)i]); }
+    };
+    rec(0, 0.0, 1.0);
+    return over;
+}
+
 inline void make_raw(TasmanianSparseGrid &g, const GridSpec &sp, int depth, int outs) {
+    if (curved_request_exceeds(sp, depth, 150000.0)) throw std::runtime_error("harness: curved selection with negative log-weights beyond the size caps of the generators");
     switch (sp.family) {
     case F_GLOBAL:
         if (sp.custom) g.makeGlobalGrid(sp.dims, outs, depth, sp.type, make_custom_gl(12), sp.aw, sp.limits);
@@ -297,6 +335,24 @@ struct GridState {
     void enforce_cap() { if (g.getNumNeeded() + g.getNumLoaded() > 4 * cap) { g.clearRefinement(); note("ClearRef(cap)"); } }
 };
 
+// Upper bound of the 1-D exactness index a curved selection with the given weights can reach in an unlimited direction for offsets up to 12 (see OP_REF_ANISO).
+inline bool curved_request_within_capacity(const GridSpec &sp, TypeDepth type, const std::vector<int> &w, const std::vector<int> &limits) {
+    const int d = sp.dims; if ((int)w.size() != 2 * d) return true;
+    const bool level_type = type == type_curved;
+    const bool seqlike = sp.family == F_SEQ || (sp.family == F_GLOBAL && !sp.custom && OneDimensionalMeta::isSequence(sp.rule));
+    const int T = level_type ? (seqlike ? 40 : sp.family == F_FOURIER ? 5 : 9) : (seqlike ? 40 : sp.family == F_FOURIER ? 250 : 1100);
+    const int EMAX = 6000, LMAX = 12; int xmin = w[0]; for (int j = 0; j < d; j++) xmin = std::min(xmin, w[(size_t)j]);
+    if (xmin < 1) return false;
+    auto f = [&](int k, int e) { return (double)w[(size_t)k] * e + (double)w[(size_t)(d + k)] * std::log1p((double)e); };
+    std::vector<double> m((size_t)d, 0.0);
+    for (int k = 0; k < d; k++) { int emax = EMAX; if (!limits.empty() && limits[(size_t)k] >= 0) emax = level_type ? limits[(size_t)k] : std::min(EMAX, (2 << std::min(limits[(size_t)k], 11)));
+        for (int e = 0; e <= emax; e++) m[(size_t)k] = std::min(m[(size_t)k], f(k, e)); }
+    for (int j = 0; j < d; j++) { if (!limits.empty() && limits[(size_t)j] >= 0) continue;
+        double slack = (double)xmin * LMAX; for (int k = 0; k < d; k++) if (k != j) slack -= m[(size_t)k];
+        for (int e = EMAX; e > T; e--) if (f(j, e) <= slack) return false; }
+    return true;
+}
+
 inline std::string lim_text(const std::vector<int> &l) { return l.empty() ? std::string("") : " limits=[" + join(l) + "]"; }
 
 // Executes one op if it is legal in the current state (legality = the documented preconditions); returns whether it ran.
@@ -354,8 +410,17 @@ inline bool apply_op(GridState &st, const Op &op) {
           // it terminates but not within any test budget, so the shape is not generated (see DESIGN, "performance pathologies")
           bool hyper = op.type == type_hyperbolic || op.type == type_iphyperbolic || op.type == type_qphyperbolic;
           std::vector<int> cur = op.limits.empty() ? g.getLevelLimits() : op.limits; bool limited = false; for (int l : cur) if (l >= 0) limited = true;
-          if (hyper && limited) return false; }
-        g.setAnisotropicRefinement(op.type, op.min_growth, out, op.limits);
+          if (hyper && limited) return false;
+          // curved contours: the weights estimated from the data can select 1-D levels in the hundreds (negative log-weights in some directions pay for a direction with a tiny
+          // linear weight): grids beyond the int index range (2^31 points in one direction) or sequences of hundreds of optimised nodes. Like depth 40 at make time this is a resource
+          // request outside the input domain ("no hard restriction on depth; however, the number of points ..."), so the reach of the request is bounded first with the documented
+          // selection formula (sum_j xi_j e_j + eta_j log(e_j+1) <= L min_j xi_j) and requests beyond the caps used everywhere else in the generators are not issued.
+          if (is_curved(op.type)) { auto w = g.estimateAnisotropicCoefficients(op.type, out); if (cfg().echo) { printf("  .. estimated weights [%s]\n", join(w).c_str()); fflush(stdout); }
+              if (!curved_request_within_capacity(st.spec, op.type, w, cur)) { if (st.ctx) st.ctx->count("skipped:curved-refinement-beyond-capacity"); return false; } } }
+        try { g.setAnisotropicRefinement(op.type, op.min_growth, out, op.limits); }
+        catch (std::runtime_error &e) {   // rules with a finite table (gauss-patterson, custom-tabulated): a refinement that needs a level beyond the table is rejected with the documented runtime_error; the case ends here
+            if (st.spec.family == F_GLOBAL && (st.spec.rule == rule_gausspatterson || st.spec.custom)) throw Discard(std::string("refinement beyond the rule table: ") + e.what());
+            throw; }
         t << "RefAniso(" << type_name(op.type) << ",growth=" << op.min_growth << ",out=" << out << lim_text(op.limits) << ")"; st.n_refine++; break; }
     case OP_UPDATE: {
         if (st.constructing || !(st.spec.family == F_GLOBAL || st.spec.family == F_SEQ || st.spec.family == F_FOURIER)) return false;
@@ -429,11 +494,12 @@ inline bool apply_op(GridState &st, const Op &op) {
         t << "LoadConstr(" << idx.size() << " pts " << (from_target ? "target" : "cand") << " v" << op.variant << (singles ? " singles" : " batch") << ")"; break; }
     case OP_FINISH_CONSTR: { if (!st.constructing) return false; g.finishConstruction(); st.constructing = false; st.candidates.clear(); t << "FinishConstr"; break; }
     case OP_SET_TRANSFORM: {
+        if (st.constructing) return false;   // the delivery pool and the parked samples are kept in transformed coordinates: no change of variables while a construction is active
         auto old = g.getNumLoaded() ? g.getLoadedPoints() : std::vector<double>();
         g.setDomainTransform(op.ta, op.tb); st.spec.ta = op.ta; st.spec.tb = op.tb; st.rekey(old); st.candidates.clear();
         t << "SetTransform(a=[" << joind(op.ta) << "] b=[" << joind(op.tb) << "])"; break; }
     case OP_CLEAR_TRANSFORM: {
-        if (!g.isSetDomainTransfrom()) return false;
+        if (!g.isSetDomainTransfrom() || st.constructing) return false;
         auto old = g.getNumLoaded() ? g.getLoadedPoints() : std::vector<double>();
         g.clearDomainTransform(); st.spec.ta.clear(); st.spec.tb.clear(); st.rekey(old); st.candidates.clear(); t << "ClearTransform"; break; }
     case OP_SET_CONFORMAL: {
@@ -442,7 +508,7 @@ inline bool apply_op(GridState &st, const Op &op) {
         g.setConformalTransformASIN(op.conformal); st.spec.conformal = op.conformal; st.rekey(old); st.candidates.clear();
         t << "SetConformal([" << join(op.conformal) << "])"; break; }
     case OP_CLEAR_CONFORMAL: {
-        if (!g.isSetConformalTransformASIN()) return false;
+        if (!g.isSetConformalTransformASIN() || st.constructing) return false;
         auto old = g.getNumLoaded() ? g.getLoadedPoints() : std::vector<double>();
         g.clearConformalTransform(); st.spec.conformal.clear(); st.rekey(old); st.candidates.clear(); t << "ClearConformal"; break; }
     case OP_CLEAR_LIMITS: { g.clearLevelLimits(); t << "ClearLimits"; break; }
